@@ -76,6 +76,25 @@ CLAIMED["C07"] = (
     "Observation points are wrapped at run time (no source hooks); a refactor that removes them yields exit 2, not a violation.",
     "DESIGN.md §2 C07",
 )
+CLAIMED["C12"] = (
+    "exploration",
+    "generated sampler runs over a verified t-wise covering array + all 2^4 posterior option combinations; invariants against a long-double reference recomputed from the stored history; instrumented target for exact row alignment",
+    "After each generated run the postconditions (|1-beta|<1e-4, reference ESS of the reference weights >= n_total, evidence() == reference MIS "
+    "evidence at beta=1) are checked, then posterior() is called with all 16 option combinations and seed-drawn trimming parameters: arity, equal "
+    "lengths, probability weights, uniform weights after resampling, and row-by-row alignment of x/logl/blob (exact, instrumented target) and of "
+    "the log-weights (each equals the reference MIS log-weight of its own sample).",
+    "Reference = vlib.refs (long double). The log-weight alignment relies on the MIS weight being a function of logl alone.",
+    "DESIGN.md §2 C12",
+)
+CLAIMED["C11"] = (
+    "exploration",
+    "property-based testing (Hypothesis) of sampler runs on targets with a zero-likelihood half-space: hull invariant on every recorded warm-up evidence, no -inf stored anywhere; seeded ensembles with a two-stage t-test for the final evidence",
+    "Supported fraction, warm-up length (ess_ratio), N, kernel and evaluation mode are generated; the instrumented likelihood counts finite/total "
+    "per prior batch; every log-evidence recorded at beta=0 must lie in the range of the batch fractions seen so far (counted once), no stored "
+    "log-likelihood may be -inf, and the final evidence is tested against the analytic value over independently seeded runs.",
+    "A prior batch without any finite draw is outside the claim and skipped (counted). The ensemble part has a stated statistical resolution.",
+    "DESIGN.md §2 C11",
+)
 
 ALL = [f"C{i:02d}" for i in range(1, 21)]
 
